@@ -770,6 +770,14 @@ class Node:
                 if n._data_id == self._data_id:
                     raise UniqueConstraintError("Node.data already exists in parent")
 
+        if isinstance(before, Node) and (
+            before is self or before._parent is not new_parent
+        ):
+            # Check this before the node is detached from its current parent
+            raise ValueError(
+                f"`before=node` ({before}) must be another child of {new_parent}"
+            )
+
         self._parent._children.remove(self)  # type: ignore
         if not self._parent._children:  # store None instead of `[]`
             self._parent._children = None
